@@ -50,6 +50,26 @@ KeyTags(P, names, keys, k) ==
          \cup (IF \A c \in expCounts : c[1] \in DOMAIN e.vars /\ e.vars[c[1]].count = c[2] THEN {} ELSE {"sig-count:" \o nm})
          \cup (IF \A v \in DOMAIN e.vars : e.vars[v].count = None \/ <<v, e.vars[v].count>> \in expCounts THEN {} ELSE {"sig-count+:" \o nm})
 
+\* every reference WRITTEN in an entry (inside pieces, components, range arms, plural forms, and inside reference arguments)
+RECURSIVE FksInPieces(_)
+FksInPieces(ps) ==
+    UNION { IF ps[i].k = "fk" THEN {ps[i].to} \cup UNION { IF ps[i].args[j].a.k = "pieces" THEN FksInPieces(ps[i].args[j].a.c) ELSE {} : j \in DOMAIN ps[i].args }
+            ELSE IF ps[i].k = "comp" THEN FksInPieces(ps[i].c) ELSE {}
+          : i \in DOMAIN ps }
+FksInEntry(e) == IF e.k = "val" THEN FksInPieces(e.v)
+                 ELSE IF e.k = "ranges" THEN UNION { FksInPieces(e.b[j].v) : j \in DOMAIN e.b }
+                 ELSE IF e.k = "plurals" THEN UNION { FksInPieces(e.forms[f]) : f \in DOMAIN e.forms }
+                 ELSE {}
+\* "an error naming the key": the two errors that quote a reference (`Invalid foreign key "T" at key "K" in locale "L"`) must name
+\* a key K that, in locale L, really holds a reference to T - not a key further up a chain of references that merely leads to it
+AttributionTags(P, names, ld) ==
+    LET q == ld.errQuoted IN
+    IF ld.errClass \notin {"MissingForeignKey", "InvalidForeignKey"} \/ Len(q) < 3 \/ "NS" \in DOMAIN IOEnv THEN {}
+    ELSE IF q[3] \notin Range(P.locs) THEN {"error-names-an-unknown-locale"}
+    ELSE IF \E k \in DOMAIN P.vals[q[3]] : names[k] = q[2] /\ \E t \in FksInEntry(P.vals[q[3]][k]) : t \in DOMAIN names /\ names[t] = q[1] THEN {}
+    ELSE IF \E k \in DOMAIN P.vals[q[3]] : names[k] = q[2] /\ \E t \in FksInEntry(P.vals[q[3]][k]) : t \notin DOMAIN names THEN {}   \* a target outside the project's keys
+    ELSE {"error-attributed-to-a-key-that-does-not-hold-that-reference"}
+
 CaseTags(ev) ==
     LET a == Cases[ev.case].abs
         P == a.P
@@ -60,7 +80,8 @@ CaseTags(ev) ==
     ELSE IF a.extra = "must-fail" THEN (IF o = "Err" THEN {} ELSE {"conflicting-count-kinds-accepted"})
     ELSE IF bad # {}
          THEN IF o # "Err" THEN {"must-reject-got-Ok"}
-              ELSE IF \E b \in bad : a.names[b[2]] \in Range(ev.load.errQuoted) THEN {} ELSE {"error-does-not-name-a-key"}
+              ELSE (IF \E b \in bad : a.names[b[2]] \in Range(ev.load.errQuoted) THEN {} ELSE {"error-does-not-name-a-key"})
+                   \cup AttributionTags(P, a.names, ev.load)
     ELSE IF o = "Err" THEN (IF a.extra = "may" THEN {} ELSE {"must-accept-got-Err"})
     ELSE UNION { IF P.vals[P.def][k].k = "group" THEN {} ELSE KeyTags(P, a.names, ev.load.units[1].keys, k)
                  : k \in DOMAIN P.vals[P.def] }
